@@ -140,8 +140,58 @@ def gate_sites(ctx):
         if isinstance(gp, ast.Call) and gp.func is par:
             sites.append((fn, gp, member, None, "direct-call"))
             continue
+        via = _through_local(ctx, fn, par, gp, parents)
+        if via is not None:
+            sites.append((fn, via[0], member, via[1], via[2]))
+            continue
         sites.append((fn, par, member, None, "escaping-reference"))
     return sites
+
+
+def _through_local(ctx, fn, par, gp, parents):
+    """`name = H5Writer.<member>` where the local `name` is bound only by such plain assignments and every use of it is the
+    first argument of the gateway (`self._io_call(name, ..., mode=<constant>)`, or a thin wrapper): the writer function
+    reaches the gateway through a local with a finite set of values.  -> (gateway call, mode, kind) or None."""
+    if not (isinstance(gp, (ast.Assign, ast.AnnAssign)) and gp.value is par):
+        return None
+    tgs = gp.targets if isinstance(gp, ast.Assign) else [gp.target]
+    if len(tgs) != 1 or not isinstance(tgs[0], ast.Name) or not (fn.cls is not None and fn.cls.name == "Workspace"):
+        return None
+    name = tgs[0].id
+    a = fn.node.args
+    if name in {x.arg for x in a.posonlyargs + a.args + a.kwonlyargs} | ({a.vararg.arg} if a.vararg else set()) | ({a.kwarg.arg} if a.kwarg else set()):
+        return None
+    uses = []
+    for n in ast.walk(fn.node):
+        if isinstance(n, ast.Name) and n.id == name:
+            p_ = parents.get(n)
+            if isinstance(n.ctx, ast.Load):
+                uses.append(n)
+            elif not (isinstance(p_, (ast.Assign, ast.AnnAssign)) and (p_.targets if isinstance(p_, ast.Assign) else [p_.target]) == [n]
+                      and isinstance(p_.value, ast.Attribute)):
+                return None  # bound in another way (loop target, with, tuple, augmented, a computed value)
+        elif isinstance(n, (ast.Lambda, ast.FunctionDef, ast.AsyncFunctionDef)) and n is not fn.node and any(
+                isinstance(x, ast.Name) and x.id == name for x in ast.walk(n)):
+            return None  # captured by a closure
+    if not uses:
+        return None
+    worst = None
+    for u in uses:
+        call = parents.get(u)
+        if not (isinstance(call, ast.Call) and call.args and call.args[0] is u):
+            return None
+        if _gateway_call(fn, call):
+            mode, dyn = _mode_of(ctx, fn, call)
+            cur = (call, mode, "dynamic-mode" if dyn else "io_call")
+        else:
+            fw = _forwarder_modes(ctx, fn, call)
+            if not fw:
+                return None
+            bad = [m for m in fw if m not in ("r+", "a")]
+            cur = (call, bad[0] if bad else fw[0], "io_call")
+        if worst is None or not (cur[2] == "io_call" and cur[1] in ("r+", "a")):
+            worst = cur
+    return worst
 
 
 def rule_gate(ctx) -> RuleResult:
